@@ -43,6 +43,13 @@ pub struct Scenario {
 	/// value-log scenario: tables pointing into several vlog files, a compaction thread and a
 	/// flush thread (no committers)
 	pub vlog: bool,
+	/// all committers run the same program on private keys: threads that have not run yet are
+	/// interchangeable, so only the lowest-numbered of them is ever switched to
+	pub symmetric: bool,
+	/// bound every departure from the default schedule (also the choice of another thread at a
+	/// blocking point), not only preemptions: needed where many threads make the free choices
+	/// at blocking points explode
+	pub deviation_bounded: bool,
 	/// preemption bounds (quick, thorough)
 	pub bounds: (usize, usize),
 }
@@ -60,6 +67,8 @@ pub fn scenarios(property: &str, tier: Tier) -> Vec<Scenario> {
 		reader: false,
 		stall_low: false,
 		vlog: false,
+		symmetric: false,
+		deviation_bounded: false,
 		bounds: (2, 3),
 	};
 	let all = vec![
@@ -118,6 +127,17 @@ pub fn scenarios(property: &str, tier: Tier) -> Vec<Scenario> {
 			property: "C17",
 			committers: vec![vec!["a0", "b0"], vec!["a1"], vec!["a2"]],
 			fail: Some(("commit.apply", 0)),
+			..base.clone()
+		},
+		Scenario {
+			// more committers than the commit queue has slots (8) / the pipeline has permits (7):
+			// the oldest batch can be held back in its apply while all others pass through
+			name: "c17-nine-committers",
+			property: "C17",
+			bounds: (1, 2),
+			committers: vec![vec!["n0"], vec!["n1"], vec!["n2"], vec!["n3"], vec!["n4"], vec!["n5"], vec!["n6"], vec!["n7"], vec!["n8"]],
+			symmetric: true,
+			deviation_bounded: true,
 			..base.clone()
 		},
 		Scenario {
@@ -258,8 +278,19 @@ fn setup(sc: &Scenario) -> Result<Setup, String> {
 		prefill = fit.saturating_sub(1);
 	}
 	let mut w = World::new(opt, &[])?;
+	#[allow(unused_mut)]
+	let mut prefill = prefill;
 	for i in 0..prefill {
 		w.commit(&[crate::model::Write::set(format!("fill{i:03}").as_bytes(), b"0123456789012345678901234567890123456789")], surrealkv::Durability::Eventual)?.map_err(|e| e)?;
+	}
+	if sc.stall_low && sc.near_full {
+		// one immutable memtable is already waiting: the next rotation reaches the stall threshold (2),
+		// so a committer really has to wait for the background flush
+		w.physical(crate::world::Phys::Rotate)?;
+		for i in 0..prefill {
+			w.commit(&[crate::model::Write::set(format!("more{i:03}").as_bytes(), b"0123456789012345678901234567890123456789")], surrealkv::Durability::Eventual)?.map_err(|e| e)?;
+		}
+		prefill *= 2;
 	}
 	if sc.reader {
 		// something for the reader to see, already on disk in L0
@@ -282,6 +313,8 @@ struct Outcome {
 	failure: Option<(String, String)>,
 	obs_hash: u64,
 	preempted: bool,
+	/// a writer sampled stall counts that made it wait
+	stalled: bool,
 }
 
 /// Run one schedule of one scenario and judge it.
@@ -475,6 +508,7 @@ fn run_schedule(sc: &Scenario, prefix: &[usize]) -> Result<Outcome, String> {
 	} else {
 		None
 	};
+	crate::schedx::set_round_robin(sc.deviation_bounded);
 	let ex: Execution<Result<(), String>> = run(programs, prefix, 4000, probe);
 	let preempted = ex.points.iter().any(|p| p.running_enabled && p.chosen != 0);
 	let mut out = Outcome {
@@ -484,6 +518,7 @@ fn run_schedule(sc: &Scenario, prefix: &[usize]) -> Result<Outcome, String> {
 		failure: None,
 		obs_hash: 0,
 		preempted,
+		stalled: ex.points.iter().any(|p| p.label == "stall:counts-sampled"),
 	};
 	// machinery-level problems first
 	if let Some(f) = &ex.failure {
@@ -774,8 +809,30 @@ pub struct SchedStats {
 	pub executions: u64,
 	pub points: u64,
 	pub preempted: u64,
+	pub stalled: u64,
 	pub outcomes: BTreeSet<u64>,
 	pub complete: bool,
+}
+
+/// Symmetry reduction: among the threads that have not run a single step yet, only the
+/// lowest-numbered may be switched to (sound when their programs are identical up to renaming).
+fn sym_ok(sc: &Scenario, pts: &[Point], i: usize, alt: usize) -> bool {
+	if !sc.symmetric {
+		return true;
+	}
+	let mut started: BTreeSet<usize> = BTreeSet::new();
+	for q in &pts[..i] {
+		started.insert(q.enabled[q.chosen]);
+	}
+	// the thread running at point i has started as well
+	if pts[i].running_enabled {
+		started.insert(pts[i].enabled[0]);
+	}
+	let t = pts[i].enabled[alt];
+	if started.contains(&t) {
+		return true;
+	}
+	pts[i].enabled.iter().filter(|x| !started.contains(x)).min() == Some(&t)
 }
 
 /// Explore one scenario with iterative context bounding (bound 0, then 1, ... up to `bound`).
@@ -786,6 +843,7 @@ fn explore_scenario(sc: &Scenario, bound: usize, budget: &Budget, found: &mut Ve
 		executions: 0,
 		points: 0,
 		preempted: 0,
+		stalled: 0,
 		outcomes: BTreeSet::new(),
 		complete: true,
 	};
@@ -793,9 +851,9 @@ fn explore_scenario(sc: &Scenario, bound: usize, budget: &Budget, found: &mut Ve
 	let root = run_schedule(sc, &[])?;
 	let mut first: Vec<Vec<usize>> = vec![];
 	for (i, p) in root.exec_points.iter().enumerate() {
-		let before = crate::schedx::preemptions(&root.exec_points, i);
+		let (before, cost) = if sc.deviation_bounded { (root.exec_points[..i].iter().filter(|q| q.chosen != 0).count(), 1) } else { (crate::schedx::preemptions(&root.exec_points, i), usize::from(p.running_enabled)) };
 		for alt in 1..p.enabled.len() {
-			if before + usize::from(p.running_enabled) > bound {
+			if before + cost > bound || !sym_ok(sc, &root.exec_points, i, alt) {
 				continue;
 			}
 			let mut c: Vec<usize> = root.exec_points[..i].iter().map(|q| q.chosen).collect();
@@ -810,6 +868,9 @@ fn explore_scenario(sc: &Scenario, bound: usize, budget: &Budget, found: &mut Ve
 		stats.points += o.exec_points.len() as u64;
 		if o.preempted {
 			stats.preempted += 1;
+		}
+		if o.stalled {
+			stats.stalled += 1;
 		}
 		stats.outcomes.insert(o.obs_hash);
 		if let Some((c, t)) = &o.failure {
@@ -831,6 +892,7 @@ fn explore_scenario(sc: &Scenario, bound: usize, budget: &Budget, found: &mut Ve
 			executions: 0,
 			points: 0,
 			preempted: 0,
+			stalled: 0,
 			outcomes: BTreeSet::new(),
 			complete: true,
 		};
@@ -854,9 +916,9 @@ fn explore_scenario(sc: &Scenario, bound: usize, budget: &Budget, found: &mut Ve
 					let mut children = vec![];
 					for i in prefix.len()..pts.len() {
 						let p = &pts[i];
-						let before = crate::schedx::preemptions(pts, i);
+						let (before, cost) = if sc.deviation_bounded { (pts[..i].iter().filter(|q| q.chosen != 0).count(), 1) } else { (crate::schedx::preemptions(pts, i), usize::from(p.running_enabled)) };
 						for alt in 1..p.enabled.len() {
-							if before + usize::from(p.running_enabled) > bound {
+							if before + cost > bound || !sym_ok(sc, pts, i, alt) {
 								continue;
 							}
 							let mut c: Vec<usize> = pts[..i].iter().map(|q| q.chosen).collect();
@@ -880,6 +942,7 @@ fn explore_scenario(sc: &Scenario, bound: usize, budget: &Budget, found: &mut Ve
 		stats.shape_changed += st.shape_changed;
 		stats.points += st.points;
 		stats.preempted += st.preempted;
+		stats.stalled += st.stalled;
 		stats.outcomes.extend(st.outcomes);
 		stats.complete &= st.complete;
 		found.extend(fnd);
@@ -917,12 +980,16 @@ pub fn run_into(report: &mut Report, property: &'static str, tier: Tier, cap_s: 
 				return 2;
 			}
 			Ok(st) => {
+				if sc.stall_low && !sc.closer && st.stalled == 0 {
+					eprintln!("machinery: scenario {} never stalled a writer (vacuous)", sc.name);
+					return 2;
+				}
 				total_exec += st.executions;
 				total_points += st.points;
 				total_preempted += st.preempted;
 				outcomes += st.outcomes.len();
 				all_complete &= st.complete;
-				completed.push(format!("{}: preemption bound {bound}: {} schedules, {} scheduling points, {} distinct outcomes, {} schedules with a blocked await, {} with a rotation/flush{}", sc.name, st.executions, st.points, st.outcomes.len(), st.awaited, st.shape_changed, if st.complete { "" } else { " (time cap hit)" }));
+				completed.push(format!("{}: {} bound {bound}: {} schedules, {} scheduling points, {} distinct outcomes, {} schedules with a blocked await, {} in which a writer hit the write stall, {} with a rotation/flush{}", sc.name, if sc.deviation_bounded { "deviation (any non-default choice)" } else { "preemption" }, st.executions, st.points, st.outcomes.len(), st.awaited, st.stalled, st.shape_changed, if st.complete { "" } else { " (time cap hit)" }));
 			}
 		}
 	}
